@@ -13,7 +13,7 @@
 (*  - EmitState (an INVARIANT that is always TRUE) prints one JSON line    *)
 (*    per distinct state: its history and its candidate calls.             *)
 (***************************************************************************)
-EXTENDS PropsH, Json
+EXTENDS PropsT, Json
 
 CONSTANTS ScopeName, MaxDepth, Emit
 VARIABLES ir, hist
@@ -66,8 +66,40 @@ HierScope(q, extra) ==
        names |-> {"a", "b", U}, vals |-> {}, pos |-> {NoPos}, createN |-> {0},
        parents |-> {2, 3}, maxKids |-> 2, queries |-> q, walk |-> FALSE]
 
+(* skeleton of the transform scopes: leaf d1 (ports i, o) in library "prim"; in library "work" a    *)
+(* feed-through capable mid d2 (ports a, b; cable n with two wires) and the top definition d3 (bus    *)
+(* port t of two pins; cable m with two wires); top instance i1 of d3                                 *)
+XfInit == << Cnew("N", "n"), Ccreate("NL", 1, "prim", 0), Ccreate("NL", 1, "ip", 0), Ccreate("NL", 1, "work", 0),
+             Ccreate("LD", 1, "leaf", 0), Ccreate("LD", 2, "mid", 0), Ccreate("LD", 3, "top", 0),
+             Ccreate("DP", 1, "i", 1), Ccreate("DP", 1, "o", 1),
+             Ccreate("DP", 2, "a", 1), Ccreate("DP", 2, "b", 1), Ccreate("DC", 2, "n", 2),
+             Ccreate("DP", 3, "t", 2), Ccreate("DC", 3, "m", 2),
+             Csettopdef(1, 3) >>
+XfScope ==
+      [init |-> XfInit, ops |-> {"b:child", "b:connect"},
+       max |-> [N |-> 1, L |-> 3, D |-> 3, P |-> 5, C |-> 2, I |-> 5, Q |-> 6, W |-> 4],
+       names |-> {"a", "b"}, vals |-> {}, pos |-> {NoPos}, createN |-> {0},
+       parents |-> {2, 3}, maxKids |-> 2, queries |-> {"xf"}, walk |-> FALSE]
+(* port-boundary scope: the hierarchy is fixed (top: mid instance m, leaf instance x; mid: leaf      *)
+(* instance l), mid has a two-bit bus port a and a port b and ONE inner wire, top has two wires;      *)
+(* only connections vary, so every way of tying inner nets to port bits and outer nets is reachable   *)
+XfPortInit == << Cnew("N", "n"), Ccreate("NL", 1, "work", 0),
+                 Ccreate("LD", 1, "leaf", 0), Ccreate("LD", 1, "mid", 0), Ccreate("LD", 1, "top", 0),
+                 Ccreate("DP", 1, "i", 1), Ccreate("DP", 1, "o", 1),
+                 Ccreate("DP", 2, "a", 2), Ccreate("DP", 2, "b", 1), Ccreate("DC", 2, "n", 1),
+                 Ccreate("DP", 3, "t", 1), Ccreate("DC", 3, "m", 2),
+                 Cchild(2, "l", 1), Cchild(3, "m", 2), Cchild(3, "x", 1),
+                 Csettopdef(1, 3) >>
+XfPortScope ==
+      [init |-> XfPortInit, ops |-> {"b:connect"},
+       max |-> [N |-> 1, L |-> 1, D |-> 3, P |-> 5, C |-> 2, I |-> 4, Q |-> 6, W |-> 3],
+       names |-> {"a"}, vals |-> {}, pos |-> {NoPos}, createN |-> {0},
+       parents |-> {2, 3}, maxKids |-> 2, queries |-> {"xf"}, walk |-> FALSE]
+
 ScopeTable ==
-  [ hier11 |-> HierScope({"C11"}, {}),
+  [ xf |-> XfScope,
+    xf_port |-> XfPortScope,
+    hier11 |-> HierScope({"C11"}, {}),
     hier12 |-> HierScope({"C12"}, {}),
     hier_walk |-> [HierScope({"walkq"}, {"set_name:I", "set_name:C", "set_name:P", "del_name:I", "set_attr:P",
                                           "set_attr:C", "remove:DI", "unref", "remove:PQ", "remove:CW",
@@ -136,6 +168,7 @@ QCands(s) ==
     (IF "C11" \in Queries THEN QueryCandsC11(s) ELSE {})
     \cup (IF "C12" \in Queries THEN QueryCandsC12(s) ELSE {})
     \cup (IF "hcheck" \in Queries THEN HCheckCands(s) ELSE {})
+    \cup (IF "xf" \in Queries THEN XfCands(s) ELSE {})
 
 Walk == "walk" \in DOMAIN Scope /\ Scope.walk
 NextCands(s) == IF Walk /\ "walkq" \in Queries THEN StepCands(s) \cup WalkQueryCands(s) ELSE StepCands(s)
@@ -158,7 +191,17 @@ Inv_C02_OuterPins   == C02_OuterPinMirror(ir)
 Inv_C02_Dropped     == C02_DroppedOffWire(ir)
 Inv_C10_Unique      == C10_Unique(ir)
 Inv_C10_LegalIds    == C10_LegalIds(ir)
-Inv_OracleSane      == (Queries \cap {"C11", "C12"} # {}) => OracleSane(ir)
+(* the transformation ALGORITHMS of Transform.tla satisfy C08 / C09 on every design of the scope *)
+Inv_C08_Model ==
+    ("xf" \in Queries) =>
+        LET u == Uniquify(ir, 1) IN
+        /\ C08_Unique(u, 1) /\ C08_ElabPreserved(ir, u, 1) /\ C08_WF(u) /\ C08_FreshNames(ir, u, 1)
+        /\ Uniquify(u, 1) = u
+Inv_C09_Model ==
+    ("xf" \in Queries) =>
+        LET u == Uniquify(ir, 1)  f == Flatten(u, 1) IN
+        /\ C09_OnlyLeaves(f, 1) /\ C09_LeafBijection(u, f, 1) /\ C09_NetsPreserved(u, f, 1) /\ C09_WF(f)
+Inv_OracleSane      == (Queries \cap {"C11", "C12", "xf"} # {}) => OracleSane(ir)
 
 EmitState ==
     IF Emit /\ Len(hist) <= MaxDepth THEN PrintT(<<"ST", ToJson([h |-> hist, c |-> (IF Walk THEN {} ELSE IF Queries = {} THEN StepCands(ir) ELSE QCands(ir)), walk |-> Walk, wq |-> ("walkq" \in Queries)])>>) ELSE TRUE
